@@ -2,7 +2,10 @@ CONSTANTS
   JBlockInverted = FALSE
   JNo172 = FALSE
   JAllowFallsThrough = FALSE
+  TBlockInverted = FALSE
+  TNo172 = FALSE
   Devs = {"ipv6-internal-destination-routed", "list-items-compared-as-typed", "unsupported-allow-item-raises"}
   Tier = "quick"
+  Impl = "java"
 SPECIFICATION Spec
 CHECK_DEADLOCK FALSE
